@@ -9,7 +9,7 @@
 (* the message; finally the caller catches it.                              *)
 (*                                                                          *)
 (* A class descriptor abstracts what matters to the proxy mechanism:       *)
-(*   ctor     "none" | "init-required" | "new-required"                    *)
+(*   ctor     "none" | "init-required" | "new-required" | "unproxiable"    *)
 (*   attrs    subset of {"dict", "slots", "cmember", "args"}: how the      *)
 (*            public data of an instance is stored                          *)
 (*   isExc    subclass of Exception (else only BaseException)              *)
@@ -51,6 +51,9 @@ Propagate ==
   /\ phase = "raising" /\ stack # <<>>
   /\ LET f == stack[Len(stack)] IN
      exc' = IF ~exc.orig.isExc THEN exc                                        \* BaseException passes untouched
+            \* a class of which no second instance can be built from the original's args (its __new__ wants something
+            \* else): no proxy is possible, the original itself goes on - same object, traceback intact, message as it was
+            ELSE IF exc.orig.ctor = "unproxiable" THEN exc
             ELSE IF KnownDeviations /\ exc.orig.ctor = "new-required" /\ exc.sameClass
                  THEN [exc EXCEPT !.cls = "TypeError", !.sameClass = FALSE,      \* finding F14: ExceptionProxy() itself fails
                                   !.readable = {}, !.suffixes = <<>>]
@@ -81,6 +84,6 @@ C17_Traceback == phase = "caught" => exc.traceback
 \* only the message is extended: one suffix per configurable frame crossed, innermost first; none for non-Exceptions
 C17_Message ==
   phase = "caught" =>
-    IF exc.orig.isExc THEN Len(exc.suffixes) = Len(out.exc.suffixes) /\ Len(exc.suffixes) >= 1
+    IF exc.orig.isExc /\ exc.orig.ctor # "unproxiable" THEN Len(exc.suffixes) = Len(out.exc.suffixes) /\ Len(exc.suffixes) >= 1
     ELSE exc.suffixes = <<>>
 =============================================================================
